@@ -1830,6 +1830,14 @@ export class AnyOfDiscriminatedRuntype extends BaseRuntype {
     this.ensureContextualDefinition(syntheticRefName, runtype, ctx);
     return printingContext.getRef(syntheticRefName);
   }
+  private lookupVariant(d: unknown): Runtype | undefined {
+    // own properties only: "constructor", "toString", "__proto__" must not reach Object.prototype
+    const key = typeof d === "string" ? d : typeof d === "number" || typeof d === "boolean" ? String(d) : null;
+    if (key == null || !Object.prototype.hasOwnProperty.call(this.mapping, key)) {
+      return undefined;
+    }
+    return this.mapping[key];
+  }
   validate(ctx: ValidateContext, input: unknown): boolean {
     if (typeof input !== "object" || input == null) {
       return false;
@@ -1838,7 +1846,7 @@ export class AnyOfDiscriminatedRuntype extends BaseRuntype {
     if (d == null) {
       return false;
     }
-    const v = this.mapping[d];
+    const v = this.lookupVariant(d);
     if (v == null) {
       return false;
     }
@@ -1846,7 +1854,7 @@ export class AnyOfDiscriminatedRuntype extends BaseRuntype {
     return v.validate(ctx, input);
   }
   parseAfterValidation(ctx: ParseContext, input: any): unknown {
-    const parser = this.mapping[input[this.discriminator]];
+    const parser = this.lookupVariant(input[this.discriminator]);
     if (parser == null) {
       throw new Error(
         "INTERNAL ERROR: Missing parser for discriminator " + JSON.stringify(input[this.discriminator]),
@@ -1866,7 +1874,7 @@ export class AnyOfDiscriminatedRuntype extends BaseRuntype {
     if (d == null) {
       return buildError(ctx, "expected discriminator key " + JSON.stringify(this.discriminator), input);
     }
-    const v = this.mapping[d];
+    const v = this.lookupVariant(d);
     if (v == null) {
       pushPath(ctx, this.discriminator);
       const errs = buildError(
